@@ -484,6 +484,12 @@ def run(tier="quick", seed=0, pid="C06"):
         if not reached:
             res["undecided"].append("vacuity guard: clause %s is UNREACHABLE in every proof harness (never exercised)" % lab)
     res["extra"]["clauses_exercised"] = sum(1 for v in clause_reached.values() if v)
+    try:
+        want = set(re.findall(r'"(C06\.rs\.[\w.]+):', open(os.path.join(crate, "src", "lib.rs")).read()))
+        if parsed and len(parsed) == len(names) and want - set(clause_reached):
+            res["undecided"].append("clauses that did not become Kani checks: %s" % sorted(want - set(clause_reached)))
+    except OSError:
+        pass
 
     # failures: counterexample by concrete playback, replay with plain rustc on the same real files
     if failing:
